@@ -24,10 +24,12 @@ def scenarios(seed):
     # 0: small caught-up scenario (every instant enumerated); 1: initial sync with mixed flushes; 2: reorg; 3: forced reorg
     # 4: the daemon reorganises while the server is still syncing: old-branch blocks above the fork are complete in memory
     #    (unflushed) when the first block of the new branch fails to connect
-    for i, kind in enumerate(('caught-up', 'initial-sync', 'reorg', 'forced-reorg', 'reorg-mid-sync')):
-        fk = ('none', 'random', 'alt', 'sparseF', 'none')[i]
-        sc = {'sid': f's{seed}-{kind}', 'kind': kind, 'wseed': rng.randrange(1 << 30), 'n0': (8, 16, 12, 12, 10)[i], 'colls': 0,
-              'prefetch': (100, 3, 8, 100, 100)[i], 'reorg_limit': 3, 'flushkind': fk,
+    # 5: the daemon becomes unreachable during the initial sync: the blocks already fetched are processed, then the block processor
+    #    sits in the daemon's retry loop with completed, unflushed blocks in memory when the stop arrives
+    for i, kind in enumerate(('caught-up', 'initial-sync', 'reorg', 'forced-reorg', 'reorg-mid-sync', 'daemon-down')):
+        fk = ('none', 'random', 'alt', 'sparseF', 'none', 'none')[i]
+        sc = {'sid': f's{seed}-{kind}', 'kind': kind, 'wseed': rng.randrange(1 << 30), 'n0': (8, 16, 12, 12, 10, 14)[i], 'colls': 0,
+              'prefetch': (100, 3, 8, 100, 100, 100)[i], 'reorg_limit': 3, 'flushkind': fk,
               'flushvec': flushvec_of(fk, random.Random(rng.randrange(1 << 30)))}
         if kind in ('reorg', 'reorg-mid-sync'):
             sc['fork'] = {'depth': 3, 'ext': 1, 'b_more': 1}
@@ -53,6 +55,22 @@ async def scenario_driver(sc, srv, w, tips, marks, loop):
             return None
         srv.sim.script = script
     kind = sc['kind']
+    if kind == 'daemon-down':
+        seen_d = {'blocks': 0}
+
+        def script3(info):
+            # after a few block downloads every further request fails to connect, for good
+            if info['method'] == 'rest/block':
+                seen_d['blocks'] += 1
+            if seen_d['blocks'] > 6:
+                return {'fault': 'connerr'}
+            return None
+        srv.sim.script = script3
+        await srv.wait_until(lambda: seen_d['blocks'] > 6, 300)
+        mark('daemon-down')
+        await asyncio.sleep(40)
+        mark('end')
+        return
     if kind == 'reorg-mid-sync':
         # the hashes of the old branch have been handed out; the daemon then moves to the other branch
         seen = {'hashes': 0}
@@ -324,7 +342,7 @@ def run(tier, seed, replay=None):
             if tier == 'thorough' or (small and la == 'caught-up-new-block') or (dc['scenario']['kind'] == 'reorg-mid-sync' and la == 'initial-sync'):
                 ks.update(span)                       # every instant of the window
             else:
-                n = 14 if la in ('initial-sync', 'reorg', 'after-reorg', 'caught-up-new-block', 'caught-up-new-block-2') else 6
+                n = 14 if la in ('initial-sync', 'reorg', 'after-reorg', 'caught-up-new-block', 'caught-up-new-block-2', 'daemon-down') else 6
                 ks.update(rng.sample(span, min(len(span), n)))
         ks.update(range(1, 6))
         for k in sorted(ks):
@@ -342,8 +360,9 @@ def run(tier, seed, replay=None):
         rep.floor(name, c[name], minimum)
     rep.exhaustive = tier == 'thorough'
     return rep.finish(
-        rule='5 scenarios (small caught-up, initial sync with mixed flushes and a growing daemon, natural depth-3 reorg, forced reorg, daemon '
-             'reorganising while the server still syncs so that the first new-branch block fails to connect onto unflushed old-branch blocks) x '
+        rule='6 scenarios (small caught-up, initial sync with mixed flushes and a growing daemon, natural depth-3 reorg, forced reorg, daemon '
+             'reorganising while the server still syncs so that the first new-branch block fails to connect onto unflushed old-branch blocks, '
+             'daemon becoming unreachable during the sync so that the stop finds the block processor in the retry loop) x '
              '4 job-scheduling policies that leave worker jobs parked (lazy, random, PCT, and lazy with the jobs in flight at the signal kept '
              'blocked while the loop thread proceeds - a slow fsync); a dry run counts the loop iterations K and '
              'the phase boundaries; SIGTERM is delivered to the process at loop iteration k through the real Controller.run() signal '
